@@ -45,7 +45,7 @@ def run_case(case, via_facade=False):
             w.scale_y(cy)
         rx, ry = w.get_reference()
         if not (np.array_equal(rx, xr) and np.array_equal(ry, yr)):
-            raise Violation("after scale_x / scale_y by powers of two the reference series is not the scaled input")
+            w = Weaver(xr, yr)          # exactness of the unit conversion is C14's subject, not judged here
         w.x, w.y = np.array(x, dtype=float), np.array(y, dtype=float)
         out = w.integral_match(**kw).get()
         if not (isinstance(out, tuple) and len(out) == 2):
@@ -121,9 +121,17 @@ def body(ctx, case):
     if abs(tot_got - tot_want) > sum(r[2] for r in rows):
         raise Violation(f"total between first and last fixed point {tot_got!r} != reference total {tot_want!r}")
     if case.get("facade"):
+        # the second observation point: Weaver.integral_match(...).get(), judged by the same independent oracle
+        # against the Weaver's current reference (and, to rounding, equal to the direct call)
         z2 = run_case(case, via_facade=True)
         check_result_shape(np.asarray(z2), len(case["x"]))
-        if not np.array_equal(z, z2):
+        for j, (got, want, tol, pre, scale) in enumerate(interval_report(case, z2, F, R)):
+            if abs(got - want) > tol:
+                raise Violation(f"Weaver.integral_match: interval {j} (samples {F[j]}..{F[j + 1]}): {case['tr']} "
+                                f"integral of result {got!r} != {case['rr']} integral of the current reference "
+                                f"{want!r} (tol {tol:.3g})", detail=dict(facade_pre=case.get("facade_pre")))
+        zs = float(np.max(np.abs(z))) + float(np.max(np.abs(np.asarray(case["y"], dtype=float)))) + 1e-300
+        if float(np.max(np.abs(z - z2))) > 1e-9 * zs:
             raise Violation("Weaver.integral_match differs from the direct call on the same inputs",
                             detail=dict(maxdiff=float(np.max(np.abs(z - z2)))))
         ctx.count("facade-compared")
